@@ -65,6 +65,7 @@ struct Opts {
     bool folding = true, repetition = true, bare_lf = true, chunked = true, absolute_uri = true, trailers = true;
     bool expect100 = true, head_and_bodyless = true, cookies = true, auth = true, close_delimited = true;
     bool bodies_like_http = true; // bodies may contain text that looks like request/status lines
+    bool content_type = true;       // Content-Type fields with harmless media types (request_content_type / response_content_type are derived from them)
     bool urlencoded_bodies = false; // Content-Type: application/x-www-form-urlencoded with a matching body
     int max_body = 96;
 };
@@ -127,6 +128,11 @@ inline void add_framing(Msg &m, const Opts &o, int framing) {
     }
 }
 
+// a media type in mixed case, optionally followed by parameters / a second type / trailing words (none of the types has a body parser attached)
+inline Hdr gen_content_type() {
+    static const char *T[] = {"text/plain", "TEXT/HTML", "Application/Json", "image/PNG", "application/octet-stream", "x-a/y.b+c"}; static const char *S[] = {"", "", "; charset=UTF-8", ";q=1", " ; x=y", ";a=b;c=\"d e\""}; // parameters only: what the documentation says is removed
+    Hdr h; h.name = rand_case("Content-Type"); h.lines.push_back(gen_ows(1) + std::string(T[rcx::range(0, 5)]) + S[rcx::range(0, 5)]); return h;
+}
 inline Msg gen_request(const Opts &o, int idx, bool first) {
     Msg m; m.req = true; m.tag = "q" + std::to_string(idx) + "z";
     m.method = KNOWN_METHODS[rcx::range(0, 6)];
@@ -146,7 +152,7 @@ inline Msg gen_request(const Opts &o, int idx, bool first) {
         if (o.repetition && !m.headers.empty() && rcx::chance(1, 5)) { const Hdr &prev = m.headers[(size_t)rcx::range(0, (int)m.headers.size() - 1)]; if (prev.name.size() > 2 && (prev.name[0] == 'X' || prev.name[0] == 'x')) name = rand_case(prev.name); }
         m.headers.push_back(gen_header(name, m.tag + "-" + gen_value(0, 10), o, true, true));
     }
-    if (o.cookies && rcx::chance(1, 4)) { std::string cv; int nc = rcx::range(1, 3); for (int i = 0; i < nc; i++) { if (i) cv += rcx::coin() ? "; " : ";"; cv += "c" + gen_token(1, 3) + (rcx::chance(4, 5) ? "=" + gen_token(0, 5) : ""); } Hdr h; h.name = rand_case("Cookie"); h.lines.push_back(gen_ows(1) + cv); m.headers.push_back(h); }
+    if (o.cookies && rcx::chance(1, 4)) { std::string cv; int nc = rcx::range(1, 3); for (int i = 0; i < nc; i++) { if (i) cv += rcx::coin() ? "; " : ";"; if (rcx::chance(1, 10)) { cv += rcx::coin() ? "" : " "; continue; } /* an empty element */ cv += "c" + gen_token(1, 3) + (rcx::chance(4, 5) ? "=" + gen_token(0, 5) + (rcx::chance(1, 6) ? "=" + gen_token(0, 3) : "") : ""); } if (rcx::chance(1, 8)) cv += ";"; Hdr h; h.name = rand_case("Cookie"); h.lines.push_back(gen_ows(1) + cv); m.headers.push_back(h); }
     if (o.auth && rcx::chance(1, 5)) { std::string u = "usr" + gen_token(0, 4), p = "pw" + gen_token(0, 4) + (rcx::chance(1, 4) ? ":x" : ""); static const char *b64 = "ABCDEFGHIJKLMNOPQRSTUVWXYZabcdefghijklmnopqrstuvwxyz0123456789+/"; std::string raw = u + ":" + p, enc; for (size_t i = 0; i < raw.size(); i += 3) { unsigned v = (unsigned char)raw[i] << 16; if (i + 1 < raw.size()) v |= (unsigned char)raw[i + 1] << 8; if (i + 2 < raw.size()) v |= (unsigned char)raw[i + 2]; enc += b64[(v >> 18) & 63]; enc += b64[(v >> 12) & 63]; enc += i + 1 < raw.size() ? b64[(v >> 6) & 63] : '='; enc += i + 2 < raw.size() ? b64[v & 63] : '='; } if (rcx::chance(1, 3)) while (!enc.empty() && enc.back() == '=') enc.pop_back(); /* padding omitted */ Hdr h; h.name = rand_case("Authorization");
         if (rcx::chance(1, 3)) { // Digest: the user name is a quoted string (commas, spaces, '=' and escaped quotes are all legal inside it)
             static const std::string uc = "abcXYZ019 ,;=.-_@"; std::string un; int n = rcx::range(1, 10); for (int i = 0; i < n; i++) { if (rcx::chance(1, 12)) un += "\\\""; else un += uc[rcx::range(0, (int)uc.size() - 1)]; }
@@ -154,6 +160,7 @@ inline Msg gen_request(const Opts &o, int idx, bool first) {
             h.lines.push_back(" Digest " + pre + "username=\"" + un + "\"" + post); }
         else h.lines.push_back(" Basic " + enc);
         m.headers.push_back(h); }
+    if (o.content_type && rcx::chance(1, 4)) m.headers.push_back(gen_content_type());
     if (wants_body) {
         m.body = gen_body(o, m.tag, o.max_body);
         int fr = (o.chunked && m.version == "HTTP/1.1" && rcx::chance(2, 5)) ? F_CHUNKED : F_CL;
@@ -179,6 +186,7 @@ inline Msg gen_response(const Opts &o, int idx, const Msg &rq, bool last) {
         if (o.repetition && !m.headers.empty() && rcx::chance(1, 5)) name = rand_case(m.headers[(size_t)rcx::range(0, (int)m.headers.size() - 1)].name);
         m.headers.push_back(gen_header(name, m.tag + "-" + gen_value(0, 10), o, true, !http11));
     }
+    if (o.content_type && rcx::chance(1, 4)) m.headers.push_back(gen_content_type());
     if (!bodyless) {
         m.body = gen_body(o, m.tag, o.max_body);
         int fr;
